@@ -41,11 +41,12 @@ EXTENDS ObjTree, Json, IOUtils
 
 Rec == ndJsonDeserialize(IOEnv.TRACE)
 
-VARIABLES sc, k, used, st, mflag
-tvars == <<reg, mirror, hist, last, sc, k, used, st, mflag>>
+\* TLC does not cache Rec: every reference parses the file again.  It is therefore read once, in TInit, and
+\* the scenario travels in state variables: its id, the steps not yet consumed, the number consumed.
+VARIABLES id, tr, k, used, st, mflag
+tvars == <<reg, mirror, hist, last, id, tr, k, used, st, mflag>>
 
 ToSet(s) == {s[j] : j \in 1..Len(s)}
-Steps(s) == Rec[s].steps
 HasM(o, m) == m \in DOMAIN o.listing
 
 \* signals of one step as ObjTree signal records, in arrival order, for manager m
@@ -93,21 +94,21 @@ SetToSeq(S) == LET RECURSIVE f(_)
                    f(T) == IF T = {} THEN <<>> ELSE LET x == CHOOSE y \in T : TRUE IN <<x>> \o f(T \ {x})
                IN f(S)
 
-TInit == /\ sc \in 1..Len(Rec)
+TInit == /\ \E R \in {Rec} : \E i \in 1..Len(R) : id = R[i].id /\ tr = R[i].steps
          /\ k = 1 /\ used = {} /\ st = "run" /\ mflag = FALSE
          /\ reg = TLCEval(EmptyReg)
          /\ mirror = TLCEval([m \in Paths |-> NoMirror])
          /\ hist = <<>> /\ last = <<>>
 
-Finish == /\ k > Len(Steps(sc))
-          /\ Out("DONE", [sc |-> sc, id |-> Rec[sc].id, steps |-> k - 1, used |-> SetToSeq(used)])
+Finish == /\ tr = <<>>
+          /\ Out("DONE", [id |-> id, steps |-> k - 1, used |-> SetToSeq(used)])
           /\ st' = "done"
-          /\ UNCHANGED <<reg, mirror, hist, last, sc, k, used, mflag>>
+          /\ UNCHANGED <<reg, mirror, hist, last, id, tr, k, used, mflag>>
 
 \* (`\E x \in {e}` binds x to the *value* of e: TLC evaluates e once instead of once per use)
 Step ==
-  /\ k <= Len(Steps(sc))
-  /\ \E o \in {Steps(sc)[k]} :
+  /\ tr # <<>>
+  /\ \E o \in {Head(tr)} :
      \E om \in {ObsMirrorStep(mirror, o)} :
      \E c0 \in {Cand(o, {})} :
      \E f0 \in {Failing(c0, o, om)} :
@@ -115,24 +116,24 @@ Step ==
                   ELSE {c \in {Cand(o, d) : d \in (SUBSET AllDevs) \ {{}}} : Failing(c, o, om) = {}}} :
      IF good = {}
      THEN /\ OutAll("MISMATCH", f0,
-                    LAMBDA w : [sc |-> sc, id |-> Rec[sc].id, step |-> k, what |-> w, op |-> <<o.op, o.p, o.i>>,
+                    LAMBDA w : [id |-> id, step |-> k, what |-> w, op |-> <<o.op, o.p, o.i>>,
                                 expected |-> [res |-> c0.res, present |-> SetToSeq(Present(c0.reg))],
                                 got |-> [res |-> o.res, look |-> o.look, call |-> o.call, intro |-> o.intro,
                                          listing |-> o.listing, sigs |-> o.sigs, hung |-> o.hung]])
           \* (IF, not \/: a disjunction inside an action would be explored as two alternatives)
           /\ IF PropMirror(o, om) THEN TRUE
-             ELSE Out("MISMATCH", [sc |-> sc, id |-> Rec[sc].id, step |-> k, what |-> "prop-mirror",
+             ELSE Out("MISMATCH", [id |-> id, step |-> k, what |-> "prop-mirror",
                                    op |-> <<o.op, o.p, o.i>>, listing |-> o.listing, sigs |-> o.sigs])
           /\ IF PropProps(c0.reg, o) THEN TRUE
-             ELSE Out("MISMATCH", [sc |-> sc, id |-> Rec[sc].id, step |-> k, what |-> "prop-props",
+             ELSE Out("MISMATCH", [id |-> id, step |-> k, what |-> "prop-props",
                                    op |-> <<o.op, o.p, o.i>>, listing |-> o.listing, sigs |-> o.sigs])
           /\ st' = "fail"
-          /\ UNCHANGED <<reg, mirror, hist, last, sc, k, used, mflag>>
+          /\ UNCHANGED <<reg, mirror, hist, last, id, tr, k, used, mflag>>
      ELSE \E c \in {CHOOSE c \in good : \A e \in good : Cardinality(c.used) <= Cardinality(e.used)} :
           \E bad \in {~mflag /\ ~PropMirror(o, om)} :
              /\ OutAll("DEV", c.used \ {"nearest_only"},
-                       LAMBDA w : [sc |-> sc, id |-> Rec[sc].id, step |-> k, dev |-> w, op |-> <<o.op, o.p, o.i>>])
-             /\ IF bad THEN Out("DEV", [sc |-> sc, id |-> Rec[sc].id, step |-> k, dev |-> "mirror",
+                       LAMBDA w : [id |-> id, step |-> k, dev |-> w, op |-> <<o.op, o.p, o.i>>])
+             /\ IF bad THEN Out("DEV", [id |-> id, step |-> k, dev |-> "mirror",
                                         used |-> SetToSeq(used \cup c.used), op |-> <<o.op, o.p, o.i>>])
                 ELSE TRUE
              /\ reg' = c.reg
@@ -140,7 +141,8 @@ Step ==
              /\ used' = used \cup c.used
              /\ mflag' = (mflag \/ bad)
              /\ k' = k + 1
-             /\ UNCHANGED <<hist, last, sc, st>>
+             /\ tr' = Tail(tr)
+             /\ UNCHANGED <<hist, last, id, st>>
 
 TNext == st = "run" /\ (Step \/ Finish)
 =============================================================================
